@@ -255,6 +255,18 @@ fn run_formula(tok: &[&str]) -> String {
             if mode == "parse" {
                 return format!("ok tree={} vars={} free={}", debug_tree(&pf.bdd), vars.join(","), free.join(","));
             }
+            if mode == "evalfree" {
+                // free-variable report plus: does the evaluated diagram mention only free variables?
+                let r = pf.eval();
+                let fids: Vec<usize> = pf.free_vars.iter().map(|v| v.id).collect();
+                fn only(n: &N, ids: &[usize]) -> bool {
+                    match n.as_ref() {
+                        BDD::Choice(t, s, f) => ids.contains(&s.id) && only(t, ids) && only(f, ids),
+                        _ => true,
+                    }
+                }
+                return format!("ok vars={} free={} support={}", vars.join(","), free.join(","), if only(&r, &fids) { 1 } else { 0 });
+            }
             if mode == "evalall" {
                 // value of the evaluated diagram under every assignment of the ordering's ids (ascending id order)
                 let r = pf.eval();
